@@ -588,6 +588,16 @@ void node_use(uint32_t vid, bool moved_from)
     log_event(K_USE, vid, moved_from);
 }
 
+void trivial_copy()
+{
+    RtGuard g;
+    OpRec* o = ledger_op();
+    if (!o) return;
+    ++o->n_copy;
+    if (o->in_call) ++o->copy_in_lib;
+    log_event(K_COPY, 0, 0);
+}
+
 void node_lvalue_arg(uint32_t vid)
 {
     RtGuard g;
